@@ -70,7 +70,7 @@ PROPS = {
                 note="The ScrambleSuit reference server (sim/ref/obfsref/ss.go) follows the published protocol from memory; it is the least independent reference. Tickets live on the simulated disk (os -> simos).",
                 technique=TECH + "history generation with response-split enumeration, tampering faults and a ticket-use model on a virtual clock and disk"),
     "C16": dict(engine="wire", engines=["wire", "woven"], quick=40, thorough=600, level="exploration", design="DESIGN.md section 4, C16",
-                text="The real meek_lite client (real net/http transport over the simulated network, runtime select order from the seeded seam) against a reference HTTP/1.1 server that records bodies, session ids and overlap and answers 200 with tape-sized slices (empty, small, partial, full 64 KiB) of a position-coded downstream stream; application writes of 1 byte .. 3 x 65536 with pauses up to 7 s (so the 100 ms .. 5 s poll back-off runs), Close at a tape-chosen instant; oracle: request bodies in order are exactly the written stream (complete after 20 quiet virtual minutes if not closed), Read delivers exactly the response bodies, bodies <= 65536, one session id, Host = the url argument's host on every request and the front (if given) as dial address, never two requests in flight, never 200 empty polls at one virtual instant, after Close Write fails, Read fails after a bounded drain, at most one more request and none in the following hour.",
+                text="The real meek_lite client (real net/http transport over the simulated network, runtime select order from the seeded seam) against a reference HTTP/1.1 server that records bodies, session ids and overlap and answers 200 with tape-sized slices (empty, small, partial, full 64 KiB; with Content-Length or chunked) of a position-coded downstream stream; application writes of 1 byte .. 3 x 65536 with pauses up to 7 s (so the 100 ms .. 5 s poll back-off runs), Close at a tape-chosen instant; oracle: request bodies in order are exactly the written stream (complete after 20 quiet virtual minutes if not closed), Read delivers exactly the response bodies, bodies <= 65536, one session id, Host = the url argument's host on every request and the front (if given) as dial address, never two requests in flight, never 200 empty polls at one virtual instant, after Close Write fails, Read fails after a bounded drain, at most one more request and none in the following hour.",
                 note="net/http's internal goroutines are not named tasks; they meet the simulation only through simnet operations. Fault-free server only (non-200 / dropped connections are exercised in C10).",
                 technique=TECH + "reference HTTP server with conservation oracle under seeded scheduling, select order and virtual-time polling"),
     "C10": dict(engine="wire", quick=40, thorough=600, level="exploration", design="DESIGN.md section 4, C10",
@@ -86,7 +86,7 @@ PROPS = {
                 note="Trusted: simulator, the strict pt-spec argument encoder in the harness. IPv6 targets are compared as addresses (net.IP.Equal), domain targets byte for byte.",
                 technique=TECH + "reference client under seeded segmentation and malformed-message injection on a virtual clock"),
     "C18": dict(engine="disk", quick=30, thorough=600, level="fault_enumeration", design="DESIGN.md section 4, C18",
-                text="For tape-generated start-up histories (plain / iat-mode override / explicit identity) the next start is interrupted at EVERY disk step (kill, EIO, ENOSPC; for write steps with torn sizes 0, 1, len/2, len-1, len and a sampled one), then a plain start must succeed and present the durable identity (or the one the interrupted start was given; exactly the one a start that came up despite the error has announced); the ScrambleSuit ticket store likewise: every disk step of a connection and of the client's own start-up (also eight days later, tickets expired) under kill / EIO / ENOSPC, start-up must never fail and no spent ticket reappear; identity compared through Args(), the reference's reading of the advertised cert, client ParseArgs of both bridge-line forms and obfs4_bridgeline.txt.",
+                text="For tape-generated start-up histories (plain / iat-mode override / explicit identity) the next start is interrupted at EVERY disk step (kill, EIO, ENOSPC; for write steps with torn sizes 0, 1, len/2, len-1, len and a sampled one), then a plain start must succeed and present the durable identity (or the one the interrupted start was given; exactly the one a start that came up despite the error has announced); the ScrambleSuit ticket store likewise: every disk step of a connection and of the client's own start-up (also eight days later, tickets expired) under kill / EIO / ENOSPC, start-up must never fail and no spent ticket reappear; one run in forty restarts after tickets from 230-269 different bridges; identity compared through Args(), the reference's reading of the advertised cert, client ParseArgs of both bridge-line forms and obfs4_bridgeline.txt.",
                 note="Kill model: completed disk steps persist, the step in progress persists a prefix (no loss of completed-but-unsynced writes). Trusted: simulator, simos disk model, the weave import shim (os -> simos in statefile.go and handshake_ticket.go).",
                 technique=TECH + "crash/error enumeration over every disk step of generated start-up histories with an identity-persistence model"),
     "C19": dict(engine="relay", quick=30, thorough=600, level="exploration", design="DESIGN.md section 4, C19",
